@@ -503,11 +503,37 @@ def minMargin (ds : List Dec) : Rat :=
 def verdict (s : RS) (ds : List Dec) : String :=
   if minMargin ds < 1 / 1000000000 then "?" else s.verdict
 
+/-- Replay the container's life so far — the exact sequence of public calls `a` (`add_qmc_stepper`
+of the next replica), `s` (`tempering_step`), `p` (`parallel_tempering_step`) — to obtain the state
+of the cached Hamiltonian equalities the way the code maintains it (cleared by every add, rebuilt
+by a step when either is missing). Only the frames matter for the cache, so the current replicas
+are used throughout; `none` = an add is refused. -/
+def replayCache {H : Type} (I : Iface H) (gs : List (Replica H)) (evs : List Char) :
+    Option (Option (List Bool) × Option (List Bool) × Nat) :=
+  let init : Option (Container H × List (Replica H)) :=
+    some ({ graphs := [], rng := RS.ofScript [], eqA := none, eqB := none, totalSwaps := 0 }, gs)
+  let fin := evs.foldl (fun (st : Option (Container H × List (Replica H))) e =>
+    match st with
+    | none => none
+    | some (c, rest) =>
+      if e == 'a' then
+        match rest with
+        | r :: rest' => (addStepper I c r).map (fun c' => (c', rest'))
+        | [] => none
+      else if e == 's' then some ((temperingStep I c).1, rest)
+      else if e == 'p' then some ((parallelTemperingStep I c).1, rest)
+      else some (c, rest)) init
+  fin.map (fun (c, _) => (c.eqA, c.eqB, c.graphs.length))
+
 def runStep {H : Type} (K : Kind H) (par : Bool) (toks : List String) : String :=
   match toks with
-  | bis :: _n :: sw :: words :: rest =>
+  | bis :: _n :: sw :: words :: hist :: rest =>
     let gs := parseReplicas K rest
-    let c : Container H := { graphs := gs, rng := RS.ofScript (parseNats words), eqA := none, eqB := none,
+    match replayCache K.iface gs hist.toList with
+    | none => "refused"
+    | some (eqA, eqB, added) =>
+    if added != gs.length then "bad-history" else
+    let c : Container H := { graphs := gs, rng := RS.ofScript (parseNats words), eqA := eqA, eqB := eqB,
                              totalSwaps := parseNat sw }
     let bisect := bis == "1"
     let (c', ds) := if par then parallelTemperingStep K.iface c else temperingStep K.iface c
